@@ -327,9 +327,12 @@ package profile
 //@          && forall j int :: 0 <= j && j < len(p.Sample[k].Location) ==> p.Sample[k].Location[j] != nil
 //@     invariant forall k int :: 0 <= k && k < len(p.Sample) && old(len(p.Sample[k].Location)) > 0 ==> len(p.Sample[k].Location) > 0
 //@     invariant forall k int :: 0 <= k && k < len(p.Sample) ==> len(p.Sample[k].Location) <= old(len(p.Sample[k].Location))
+//@     step rootside: len(sample.Location) <= atiter(3, len(sample.Location)) && (len(sample.Location) == 0 || elem_addr(sample.Location, 0) == elem_addr(atiter(3, sample.Location), atiter(3, len(sample.Location)) - len(sample.Location)))
 //@   loop 4
 //@     invariant -1 <= i && i < len(sample.Location)
 //@     invariant foundUser ==> i + 1 < len(sample.Location)
+//@     invariant uncut: same_elems(sample.Location, atiter(3, sample.Location))
+//@     invariant user_seen: foundUser ==> exists k int :: i < k && k < len(sample.Location) && !(has(prune, sample.Location[k].ID) && prune[sample.Location[k].ID]) && !(has(pruneBeneath, sample.Location[k].ID) && pruneBeneath[sample.Location[k].ID])
 //@     decreases i + 1
 
 //@ func Profile.PruneFrom
